@@ -287,7 +287,7 @@ int disasm_sh4(
         case OP_AT_R0_REG_FREG:
         {
           rm = (opcode >> 4) & 0xf;
-          rn = (opcode >> 8) & 0x7;
+          rn = (opcode >> 8) & 0xf;
           snprintf(instruction, length, "%s @(r0,r%d), fr%d", table_sh4[n].instr, rm, rn);
           return 2;
         }
